@@ -1140,8 +1140,13 @@ class Elemwise(Blockwise):
 
         # Build sliced inputs
         new_args = []
-        for arg in self.elemwise_args:
-            if is_scalar_for_elemwise(arg):
+        operands = list(self.elemwise_args)
+        if self.where is not True:
+            # An array ``where`` mask and its ``out`` are operands like any other:
+            # they take the same (broadcast-aware) slice.
+            operands.extend([self.where, self.out])
+        for arg in operands:
+            if arg is None or is_scalar_for_elemwise(arg):
                 new_args.append(arg)
             else:
                 # Map output slice to this input's dimensions
@@ -1185,12 +1190,17 @@ class Elemwise(Blockwise):
                 sliced_arg = new_collection(arg)[tuple(arg_slices)]
                 new_args.append(sliced_arg.expr)
 
+        new_where, new_out = self.where, self.out
+        if self.where is not True:
+            new_where, new_out = new_args[-2:]
+            new_args = new_args[:-2]
+
         return Elemwise(
             self.op,
             self.operand("dtype"),
             self.operand("name"),
-            self.where,
-            self.out,
+            new_where,
+            new_out,
             self.operand("_user_kwargs"),
             *new_args,
         )
